@@ -42,6 +42,7 @@ const (
 )
 
 func runC07(c *Ctx) {
+	c05SetRoles(c, "C07.anchors", "graph.lock", "graph.nodes", "graph.predecessors", "graph.successors", "oci.graph", "oci.sync")
 	c07R1Index(c)
 	c07R1Remove(c)
 	c07R1Predecessors(c)
@@ -63,7 +64,7 @@ func runC07(c *Ctx) {
 // c07MapOf: v is a load of graph.Memory.<field>.
 func c07MapOf(v ssa.Value, field string) bool {
 	u, ok := v.(*ssa.UnOp)
-	return ok && u.Op == token.MUL && c05IsFieldAddrOf(u.X, c07GraphT, field)
+	return ok && u.Op == token.MUL && c05Cur.F("graph."+field) != "" && c05IsFieldAddrOf(u.X, c07GraphT, c05Cur.F("graph."+field))
 }
 
 // c07IsKeyOf: v is descriptor.FromOCI(x) with x satisfying of (looking through single-assignment struct locals).
@@ -139,7 +140,7 @@ func c07EveryIteration(body Edge, header *ssa.BasicBlock, ins ...ssa.Instruction
 // helper's own receiver resolves to the root's receiver).
 func c07MapOfE(v ssa.Value, field string, e *c05Env) bool {
 	u, ok := v.(*ssa.UnOp)
-	if !ok || u.Op != token.MUL || !c05IsFieldAddrOf(u.X, c07GraphT, field) {
+	if !ok || u.Op != token.MUL || c05Cur.F("graph."+field) == "" || !c05IsFieldAddrOf(u.X, c07GraphT, c05Cur.F("graph."+field)) {
 		return false
 	}
 	base := u.X.(*ssa.FieldAddr).X
@@ -1034,7 +1035,7 @@ func c07R2Load(c *Ctx) {
 				arg := call.Common().Args[gi]
 				okG := false
 				if u, isU := arg.(*ssa.UnOp); isU && u.Op == token.MUL {
-					if fa, isFA := u.X.(*ssa.FieldAddr); isFA && c05FieldNameOf(fa.X.Type(), fa.Field) == "graph" && len(g.Params) > 0 && fa.X == ssa.Value(g.Params[0]) {
+					if fa, isFA := u.X.(*ssa.FieldAddr); isFA && c05IsNamedType(fa.Type().(*types.Pointer).Elem(), "internal/graph", "Memory") && len(g.Params) > 0 && fa.X == ssa.Value(g.Params[0]) {
 						okG = true
 					}
 				}
@@ -1073,7 +1074,7 @@ func c07R2GC(c *Ctx) {
 			n++
 			tn := FnName(fn)
 			var installs []ssa.Instruction
-			for _, u := range c05FieldUses([]*ssa.Function{fn}, "~/content/oci.Store", "graph") {
+			for _, u := range c05FieldUses([]*ssa.Function{fn}, "~/content/oci.Store", c05Cur.F("oci.graph")) {
 				if st, isStore := u.Use.(*ssa.Store); isStore && SameValue(st.Val, G.Value()) {
 					installs = append(installs, st)
 				}
@@ -1096,7 +1097,7 @@ func c07R2GC(c *Ctx) {
 		c.OK(R, "~/content/oci|rebuilt-graph-installed", token.NoPos, "the OCI store never rebuilds its graph")
 	}
 	// and nobody else replaces s.graph of a shared store
-	for _, u := range c05FieldUses(c.P.FuncsOfPkg("content/oci"), "~/content/oci.Store", "graph") {
+	for _, u := range c05FieldUses(c.P.FuncsOfPkg("content/oci"), "~/content/oci.Store", c05Cur.F("oci.graph")) {
 		st, isStore := u.Use.(*ssa.Store)
 		if !isStore || pathIsFresh(accessPath(u.Addr.X)) {
 			continue
@@ -1258,9 +1259,7 @@ func c07R4(c *Ctx) {
 	c.Expect(R, 18) // 23 on the pinned tree
 	LockCheck(c, R, []GuardSpec{c06GraphSpec()}, []string{"internal/graph"})
 	// the OCI store swaps its graph pointer in GC: readers of s.graph hold s.sync (the unsafeStore exemption is proved under C06.R1)
-	LockCheck(c, R, []GuardSpec{{Type: "~/content/oci.Store", Fields: []string{"graph"}, Lock: "sync", Exempt: map[string]string{
-		"(*~/content/oci.unsafeStore).Predecessors": c06UnsafeWhy,
-	}}}, []string{"content/oci"})
+	LockCheck(c, R, []GuardSpec{{Type: "~/content/oci.Store", Fields: []string{c05Cur.F("oci.graph")}, Lock: c05Cur.F("oci.sync"), Exempt: c06UnsafeExempt()}}, []string{"content/oci"})
 }
 
 var c07Mutants = []Mutant{
